@@ -487,6 +487,31 @@ class CFG(object):
                     changed = True
         return pdom
 
+    def simple_paths(self, targets, cap=20000):
+        """Node lists of every simple path entry -> a node in targets."""
+        tg = set(n.id for n in targets)
+        out = []
+
+        def step(n, path, onpath):
+            if len(out) > cap:
+                return
+            if n.id in tg:
+                out.append(path + [n])
+                return
+            for (m, lab) in n.succs:
+                if m.id not in onpath:
+                    step(m, path + [n], onpath | {m.id})
+        import sys
+        old = sys.getrecursionlimit()
+        sys.setrecursionlimit(max(old, 10000))
+        try:
+            step(self.entry, [], {self.entry.id})
+        finally:
+            sys.setrecursionlimit(old)
+        if len(out) > cap:
+            raise AnalysisBroken('path enumeration exceeded %d paths' % cap)
+        return out
+
     def reachable_avoiding(self, targets, cut_nodes=(), cut_edges=()):
         """Is any node of `targets` reachable from entry without passing through a
         node of cut_nodes or an edge (node id, label) of cut_edges?"""
